@@ -141,7 +141,7 @@ pub fn decode_all(shape: &Shape, input: &[u8]) -> Result<Vec<Decoded>, String> {
     let (consumed, remainder_ok) = match &r {
         Ok((_, rem)) => {
             let c = input.len() - rem.len();
-            (Some(c), rem.as_ptr() == input[c..].as_ptr())
+            (Some(c), rem.is_empty() || rem.as_ptr() == input[c..].as_ptr())
         }
         Err(_) => (None, true),
     };
